@@ -336,10 +336,24 @@ def gen_file(rng, ids, knobs):
     return f
 
 
+def spell(rng, w):
+    """a `display:` word in random letter case (the words are keywords: case is not significant)"""
+    return rng.choice([w, w, w.upper(), w.capitalize(), w[0] + w[1:].upper()])
+
+
+def respell_display(rng, files):
+    for f in files:
+        for n, _ in walk(f):
+            if n["display"]:
+                n["display_spell"] = [spell(rng, w) for w in n["display"]]
+
+
 def gen_project(rng, knobs=None):
     knobs = dict(knobs or {})
     ids = Ids()
-    return [gen_file(rng, ids, knobs) for _ in range(knobs.get("nfiles") or rng.choice([1, 1, 2]))]
+    files = [gen_file(rng, ids, knobs) for _ in range(knobs.get("nfiles") or rng.choice([1, 1, 2]))]
+    respell_display(rng, files)
+    return files
 
 
 # ------------------------------------------------------------------ renderer
@@ -347,7 +361,7 @@ def gen_project(rng, knobs=None):
 def doc_lines(n, ind, second=False):
     out = []
     if not second:
-        for w in n["display"]:
+        for w in (n.get("display_spell") or n["display"]):     # same words, possibly in another letter case
             out.append(f"{ind}!! display: {w}")
         if n["internals"] is not None:
             out.append(f"{ind}!! proc_internals: {'true' if n['internals'] else 'false'}")
@@ -696,5 +710,10 @@ def template_project():
         kc["ctor_of"], kc["members"] = ty["name"], [helper["name"]]
         m2["children"] += [["types", ty], ["interfaces", kc]]
     m2["children"].append(["subroutines", helper])
+    # metadata words in other letter cases, present in every run: `display: Public` on the second module,
+    # `display: PRIVATE` on the submodule, `display: None` on the program
+    m2["display"], m2["display_spell"] = ["public"], ["Public"]
+    sm["display"], sm["display_spell"] = ["private"], ["PRIVATE"]
+    pg["display"], pg["display_spell"] = ["none"], ["None"]
     f["children"] = [["modules", m], ["modules", m2], ["submodules", sm], ["programs", pg], ["procs", top]]
     return [f], {"file": f, "module": m, "type": t, "procedure": p_pub, "submodule": sm}
